@@ -303,3 +303,48 @@ pub fn expr_program(rng: &mut Rng, depth: u32, mutate: bool) -> (ExprProgram, Sc
     text.push_str(&format!("wire t:{};\nt = {};\npc = 0; Stat = STAT_HLT;\n", decl, render(&e)));
     (ExprProgram { text, target }, sc)
 }
+
+/// documented binding strength (C11): larger binds tighter
+pub fn prec(op: &str) -> u32 {
+    match op {
+        "||" => 0, "&&" => 1,
+        "==" | "!=" | "<" | "<=" | ">" | ">=" => 2,
+        "in" => 3, "|" => 4, "^" => 5, "&" => 6, "<<" | ">>" => 7, "+" | "-" => 8, "*" | "/" => 9,
+        _ => 10,
+    }
+}
+
+fn level(e: &GExpr) -> u32 {
+    match e {
+        GExpr::Bin(op, _, _) => prec(op),
+        GExpr::In(_, _) => 3,
+        GExpr::Un(_, _) | GExpr::Slice(_, _, _) => 10,
+        _ => 11,
+    }
+}
+
+fn paren_if(e: &GExpr, need: bool) -> String { if need { format!("({})", render_min(e)) } else { render_min(e) } }
+
+/// text with only the parentheses the documented precedence and associativity require
+pub fn render_min(e: &GExpr) -> String {
+    match e {
+        GExpr::Bin(op, l, r) => {
+            let p = prec(op);
+            let nonassoc = p == 2;
+            let ls = paren_if(l, level(l) < p || (nonassoc && level(l) == p));
+            let rs = paren_if(r, level(r) <= p);
+            format!("{} {} {}", ls, op, rs)
+        }
+        GExpr::Un(op, x) => format!("{}{}", op, paren_if(x, level(x) <= 10)),
+        GExpr::Slice(x, lo, hi) => format!("{}[{}..{}]", paren_if(x, level(x) <= 10), lo, hi),
+        GExpr::In(x, items) => format!("{} in {{ {} }}", paren_if(x, level(x) <= 3), items.iter().map(render_min).collect::<Vec<_>>().join(", ")),
+        GExpr::Mux(opts) => {
+            let mut s = String::from("[ ");
+            for (c, v) in opts { s.push_str(&format!("{} : {}; ", render_min(c), render_min(v))); }
+            s.push(']');
+            s
+        }
+        GExpr::Concat(l, r) => format!("({} .. {})", render_min(l), render_min(r)),
+        other => render(other),
+    }
+}
